@@ -124,7 +124,8 @@ static inline void readline_push_current_line_to_history(struct readline *rl)
 
 static inline void readline_load_history_line(struct readline *rl)
 {
-    rl->lastsize = rl->line.len;
+    // columns between the start of the line and the cursor on the screen
+    rl->lastsize = rl->line.cursor;
 
     if (rl->curhist == 0)
     {
